@@ -10,6 +10,8 @@ ADV = ["Adv_DropRrsig", "Adv_DropRrset", "Adv_ReplaceRdata", "Adv_WrongSigner", 
 VAL = ["NextQuery", "Deliver", "StartGroup", "EntProbe", "FetchNext", "VerifyKey", "VerifyDs", "Probe", "CheckGroup", "Judge"]
 ACTIONS = ["Init"] + ADV + VAL
 
+# (D_sigcache_ignores_time is declared per case by MC_Validator.tla only; the
+# machine has no clock-dependent cache to switch on)
 DEV_INVARIANT = {"D_nsec3_label_expect": "NoPanic", "D_ttl0_node_panic": "NoPanic",
                  "D_extra_rrset_ignored": "Soundness"}
 
@@ -39,7 +41,9 @@ def run(ctx):
     # pair of rewrites of 20 actions (NotYetValid, ForgeNsecRange, SwapProof and
     # AddExtraDs only singly) on different messages.
     cases = os.path.join(ctx.work, "cases.ndjson")
-    mc = ctx.tlc("MC_Validator", "MC_Validator", workers=8, label="mc", cases_to=cases)
+    # (quick leaves out the shape insecure4 and most query kinds in the ENT shapes)
+    mc = ctx.tlc("MC_Validator", "MC_Validator_full" if thorough else "MC_Validator",
+                 workers=8, label="mc", cases_to=cases)
     ctx.require_ok(mc, "MC_Validator")
     ctx.require_actions(mc, [a for a in ACTIONS if a != "NextQuery"])
     ctx.exhaustive_flags.append(True)
@@ -69,10 +73,19 @@ def run(ctx):
             g.write(line)
     rc, out, err, _ = ctx.run_bin("replay_validator", ["--selftest-perturb"], stdin_path=head)
     ctx.selftest("perturbed expectation is reported by replay_validator", "FAIL " in out)
+    # what a Connection must show per validation state and request flags
+    # CD x AD x DO (ValidatorConn.tla), as a table for the executor
+    connview = os.path.join(ctx.work, "connview.ndjson")
+    cv = ctx.tlc("MC_ConnView", "MC_ConnView", workers=1, label="connview", coverage=False,
+                 cases_to=connview)
+    ctx.require_ok(cv, "MC_ConnView")
+    if cv.ncases != 24:
+        raise vlib.ToolError("ConnView table incomplete")
     trace = os.path.join(ctx.work, "trace.ndjson")
     devs = ",".join(sorted(ctx.open_devs))
     rc, out, err, wall = ctx.run_bin("replay_validator",
-                                     ["--conn", "--trace", trace, "--open-devs", devs],
+                                     ["--conn", "--connview", connview, "--trace", trace,
+                                      "--open-devs", devs],
                                      stdin_path=cases, timeout=3000)
     rep = os.path.join(ctx.work, "replay.out")
     open(rep, "w").write(out)
@@ -88,15 +101,21 @@ def run(ctx):
     # NSEC3-hash caches persist; invariant CacheTransparent; each behaviour is
     # replayed on one real context and the last verdict compared
     scases = os.path.join(ctx.work, "seq.ndjson")
-    seqs = ["MC_Validator_seq"] + (["MC_Validator_seq_thorough"] if thorough else [])
+    # "time": TimePasses between runs (signatures with a few seconds of life
+    # left: nodes built from them expire and are re-fetched; clock_gettime is
+    # interposed in the executor) and Resalt (a second NSEC3 parameter set)
+    seqs = ["MC_Validator_seq", "MC_Validator_time"] + (
+        ["MC_Validator_seq_thorough", "MC_Validator_time_thorough"] if thorough else [])
     for cfgname in seqs:
         sq = ctx.tlc("MC_Validator", cfgname, workers=8, label="mc-" + cfgname[13:], cases_to=scases)
         ctx.require_ok(sq, cfgname)
         ctx.require_actions(sq, ["NextQuery"])
-        if sq.ncases < 500:
+        if sq.ncases < 150:
             raise vlib.ToolError("too few sequence behaviours: %d" % sq.ncases)
         rc, out3, err3, wall3 = ctx.run_bin("replay_validator", ["--open-devs", devs],
                                             stdin_path=scases, timeout=3000)
+        if "CLOCK " in out3:
+            raise vlib.ToolError("clock_gettime interposition does not work in the executor")
         _absorb(ctx, out3, err3, wall3, label=cfgname[13:])
     if not thorough:
         # pairs of rewrites that only bite together: forged data signed with
